@@ -282,11 +282,32 @@ Section XImpl.
     else bindo (comp_f true (nm, xo_alias o) t ov (o_sels (xo o)) p') (fun r =>
            Ok (mkxr (x_v r) (x_es r) ((nid, nm) :: x_tr r) (x_ev r) (x_lf r) (x_ni r))).
 
+  (* the field table root.resolve_field dispatches on: the object's own fields,
+     or - for an interface / union enum (static type differs from the runtime
+     type) - the interface's fields, forwarded to the implementor *)
+  Definition declared_ty (rt : name) (o : xocc) : option ty :=
+    let nm := o_name (xo o) in
+    if name_eqb (xo_st o) rt then obj_field_ty S rt nm
+    else match lookup_ret (xo_st o) nm with
+         | Some _ => obj_field_ty S rt nm
+         | None => None
+         end.
+
   Definition field_step (comp_f : comp_t) : field_t := fun rt nid o p =>
     let nm := o_name (xo o) in
     if name_eqb nm N_typename then Ok (mkxr (IVal (VStr (type_str S rt))) [] [] [] false O)
-    else match obj_field_ty S rt nm with
-         | None => Err 7
+    else match declared_ty rt o with
+         | None =>
+             (* a field the object / interface does not define (only reachable when
+                validation does not check field names, ValidationMode::Fast):
+                resolve_field answers Ok(None), i.e. null, on the fast path; the
+                extension branch fails on its registry lookup *)
+             if ext_branch o then
+               match lookup_ret (xo_st o) nm with
+               | None => Ok (mkxr (IFail []) [] [] [] true O)
+               | Some _ => Err 7
+               end
+             else Ok (mkxr (IVal VNull) [] [] [] false O)
          | Some t =>
              let p' := p ++ [PF (o_key (xo o))] in
              if ext_branch o then
@@ -383,7 +404,8 @@ Record cfg := {
   c_k : N;             (* number of recording extensions attached (ids 0 .. k-1) *)
   c_valid : bool;      (* outcome of the validator on this document (not modelled here) *)
   c_intro : bool;      (* request.only_introspection() *)
-  c_empty : name }.    (* the name "EmptyMutation" (a type the registry of the family does not contain) *)
+  c_empty : name;      (* the name "EmptyMutation" (a type the registry of the family does not contain) *)
+  c_fast : bool }.     (* ValidationMode::Fast (field names are not validated) *)
 
 Definition empty_mutation_str : str := [69;109;112;116;121;77;117;116;97;116;105;111;110].
 
@@ -631,7 +653,7 @@ Definition oresp_same (a b : option response) : bool :=
   end.
 
 Definition with_k (cf : cfg) (k : N) : cfg :=
-  {| c_k := k; c_valid := c_valid cf; c_intro := c_intro cf; c_empty := c_empty cf |}.
+  {| c_k := k; c_valid := c_valid cf; c_intro := c_intro cf; c_empty := c_empty cf; c_fast := c_fast cf |}.
 
 Section Case.
   Variable S : schema.
@@ -648,6 +670,21 @@ Section Case.
     if c_intro cf then None
     else match r with Some r => Some (length (rs_trace r)) | None => Some O end.
 
+  (* the two situations in which the extension branch's lookup is known to fail:
+     1 = introspection-only mutation (root EmptyMutation, a static type name that
+     is not registered); 2 = a field name that the registry does not know, in a
+     document accepted because validation mode Fast does not check field names.
+     A failing lookup anywhere else is in no known class. *)
+  Definition known_class : N :=
+    let is_mut := match od with
+                  | Some d => match select_op d opname with
+                              | Some o => match op_ty o with OpMutation => true | _ => false end
+                              | None => false
+                              end
+                  | None => false
+                  end in
+    if c_intro cf && is_mut then 1 else if c_fast cf then 2 else 0.
+
   Definition judge (q : quirks) (m0 : option response) (im : impl) : N :=
     match (if c_k cf =? 0 then xmodel q 0 else xmodel q (c_k cf)) with
     | Ok (mk, hks, lf) =>
@@ -658,7 +695,7 @@ Section Case.
         let ies := i_same im &&
                    lifecycle_ok (c_k cf) (i_hooks im)
                                 (if c_intro cf then None else Some (length (rs_trace (i_resp im)))) in
-        verdict iem mes ies (if lf then 1 else 0)
+        verdict iem mes ies (if lf then known_class else 0)
     | _ => 9
     end.
 
@@ -678,3 +715,10 @@ Section Case.
     | _ => 9
     end.
 End Case.
+
+(* the variant-schema stream (merged objects, flattened fields, generic
+   objects, union, interface): no executor model; the response must equal the
+   run without extensions and the hook trace must satisfy the lifecycle checker *)
+Definition check_var (k : N) (same : bool) (hooks : list ev) : N :=
+  if same && lifecycle_ok k hooks None then 0 else 4.
+
